@@ -7,6 +7,8 @@
 package main
 
 import (
+	"bytes"
+	"encoding/binary"
 	"encoding/json"
 	"fmt"
 	"os"
@@ -17,7 +19,9 @@ import (
 	"strconv"
 	"strings"
 	"sync/atomic"
+	"syscall"
 	"time"
+	"unsafe"
 
 	"verif/checks"
 	"verif/sim/store"
@@ -123,6 +127,58 @@ func main() {
 	}
 }
 
+// curFile maps an 8-byte file into memory and returns a setter for the index
+// of the run the worker is in: one atomic store per run (a file write per run
+// costs more than a short run itself), never torn, readable by the master
+// whatever happens to this process.
+func curFile(path string) func(int64) {
+	fallback := func(i int64) { _ = os.WriteFile(path, []byte(strconv.FormatInt(i, 10)), 0o644) }
+	f, err := os.OpenFile(path, os.O_RDWR|os.O_CREATE|os.O_TRUNC, 0o644)
+	if err != nil {
+		return fallback
+	}
+	if err := f.Truncate(8); err != nil {
+		f.Close()
+		return fallback
+	}
+	m, err := syscall.Mmap(int(f.Fd()), 0, 8, syscall.PROT_READ|syscall.PROT_WRITE, syscall.MAP_SHARED)
+	f.Close()
+	if err != nil || len(m) != 8 {
+		return fallback
+	}
+	p := (*int64)(unsafe.Pointer(&m[0]))
+	atomic.StoreInt64(p, -1)
+	return func(i int64) { atomic.StoreInt64(p, i) }
+}
+
+// readCur reads what curFile's setter last stored (or the textual fallback).
+func readCur(path string) (int, bool) {
+	b, err := os.ReadFile(path)
+	if err != nil {
+		return 0, false
+	}
+	if len(b) == 8 {
+		v := int64(binary.LittleEndian.Uint64(b))
+		if v < 0 {
+			return 0, false
+		}
+		return int(v), true
+	}
+	v, err := strconv.Atoi(strings.TrimSpace(string(b)))
+	return v, err == nil && v >= 0
+}
+
+// heartbeatStale is how long a worker may stay silent before the master
+// kills it (VERIF_HEARTBEAT_STALE_S overrides).
+func heartbeatStale() time.Duration {
+	if s := os.Getenv("VERIF_HEARTBEAT_STALE_S"); s != "" {
+		if v, err := strconv.Atoi(s); err == nil && v > 0 {
+			return time.Duration(v) * time.Second
+		}
+	}
+	return 240 * time.Second
+}
+
 func usage() {
 	fmt.Fprintln(os.Stderr, "usage: check run <ID> <quick|thorough> | check replay <ID> <file> | check list")
 	os.Exit(exitHarness)
@@ -189,6 +245,15 @@ func worker(args []string) int {
 	var curRun atomic.Int64
 	curRun.Store(-1)
 	var curStart atomic.Int64
+	setCur := curFile(out + ".cur")
+	go func() {
+		// heartbeat for the master (see run): proves that this process's
+		// runtime still schedules goroutines
+		for n := 0; ; n++ {
+			_ = os.WriteFile(out+".hb", []byte(strconv.Itoa(n)), 0o644)
+			time.Sleep(2 * time.Second)
+		}
+	}()
 	go func() {
 		// wall-clock watchdog: a single run that neither returns nor fails for
 		// runTimeout is recorded (seed only) and the process gives up; the
@@ -216,7 +281,7 @@ func worker(args []string) int {
 	for i := wi; i < N; i += W {
 		curStart.Store(time.Now().UnixNano())
 		curRun.Store(int64(i))
-		_ = os.WriteFile(out+".cur", []byte(strconv.Itoa(i)), 0o644)
+		setCur(int64(i))
 		if !deadline.IsZero() && time.Now().After(deadline) {
 			wo.Extra["runs_cut_by_wallclock_cap"] += (N - i + W - 1) / W
 			break
@@ -662,10 +727,56 @@ func master(id string, tier checks.Tier) int {
 			outp := filepath.Join(tmp, fmt.Sprintf("w%d.json", w))
 			cmd := exec.Command(self, "worker", id, string(tier), strconv.FormatUint(seed, 10), strconv.Itoa(w), strconv.Itoa(W), strconv.Itoa(N), outp)
 			cmd.Env = append(os.Environ(), "GOMAXPROCS=2", "GORACE=halt_on_error=0 exitcode=0 log_path="+filepath.Join(tmp, fmt.Sprintf("race-w%d", w)))
-			b, err := cmd.CombinedOutput()
+			var ob bytes.Buffer
+			cmd.Stdout, cmd.Stderr = &ob, &ob
+			err := cmd.Start()
+			if err == nil {
+				// liveness from outside: the worker's heartbeat goroutine touches
+				// <out>.hb every two seconds. The in-process watchdog cannot fire
+				// when the whole Go runtime of the worker is stuck (observed once
+				// under a load average of 90: one thread inside runtime.Stack, the
+				// world never stopped again); a worker silent for heartbeatStale is
+				// killed and the run it was in is handled like a watchdog stop
+				// (replayed alone before anything is said about it).
+				stop := make(chan struct{})
+				go func() {
+					started := time.Now()
+					for {
+						select {
+						case <-stop:
+							return
+						case <-time.After(5 * time.Second):
+						}
+						last := started
+						if fi, e := os.Stat(outp + ".hb"); e == nil {
+							last = fi.ModTime()
+						}
+						if time.Since(last) > heartbeatStale() {
+							{
+								if i, ok := readCur(outp + ".cur"); ok {
+									rf := &replayFile{Property: id, VerifSeed: seed, RunIndex: i, RunSeed: runSeed(seed, id, i), Tier: string(tier), Class: "watchdog/worker-silent", Msg: "the worker process stopped responding (no heartbeat) during this run and was killed"}
+									jb, _ := json.MarshalIndent(rf, "", " ")
+									path := filepath.Join(outDir(), "replays", fmt.Sprintf("%s-%d-%d-hang.json", id, seed, i))
+									_ = os.MkdirAll(filepath.Dir(path), 0o755)
+									_ = os.WriteFile(path, jb, 0o644)
+									_ = os.WriteFile(outp+".hang", []byte(path), 0o644)
+								}
+							}
+							_ = cmd.Process.Kill()
+							return
+						}
+					}
+				}()
+				err = cmd.Wait()
+				close(stop)
+			}
+			b := ob.Bytes()
 			code := 0
 			if cmd.ProcessState != nil {
 				code = cmd.ProcessState.ExitCode()
+			}
+			if _, herr := os.Stat(outp + ".hang"); herr == nil && err != nil {
+				code = 3 // stopped for silence: the .hang marker carries the run
 			}
 			if err != nil {
 				_ = os.WriteFile(filepath.Join(tmp, fmt.Sprintf("w%d.log", w)), b, 0o644)
@@ -695,12 +806,11 @@ func master(id string, tier checks.Tier) int {
 		if _, err := os.Stat(filepath.Join(tmp, fmt.Sprintf("w%d.json.hang", w))); err == nil {
 			continue
 		}
-		b, err := os.ReadFile(filepath.Join(tmp, fmt.Sprintf("w%d.json.cur", w)))
-		if err != nil {
+		i, ok := readCur(filepath.Join(tmp, fmt.Sprintf("w%d.json.cur", w)))
+		if !ok {
 			harnessTrouble = true
 			continue
 		}
-		i, _ := strconv.Atoi(string(b))
 		rf := &replayFile{Property: id, VerifSeed: seed, RunIndex: i, RunSeed: runSeed(seed, id, i), Tier: string(tier), Class: "process-death", Msg: "the worker process died during this run"}
 		jb, _ := json.MarshalIndent(rf, "", " ")
 		path := filepath.Join(outDir(), "replays", fmt.Sprintf("%s-%d-%d-death.json", id, seed, i))
